@@ -115,6 +115,8 @@ class Run:
                 if kind == "proposal":
                     if st["expect_flat"]:
                         raise Mismatch("flatcheck-missed", "no flat check after %d steps (period %d)" % (model.period, model.period))
+                    if model.steps == 0 and model.niter == 0 and model.should_stop():
+                        raise Mismatch("started-although-converged", "f=%r is already <= the threshold %r but the run takes a step" % (model.f, model.conv))
                     if st["finished_model"]:
                         raise Mismatch("continued-after-convergence", "f=%r <= threshold %r but the run continued" % (model.f, model.conv))
                     st["p"] = model.on_proposal(ev)
@@ -344,15 +346,23 @@ def first_level(cfg, seed, stream, horizon):
     return out
 
 
-def geometry_shard(_):
+def geometry_shard(_, only=None):
     """Bin geometry for every (binmin, binmax, nbins) on a grid whose width divides [0,1]: construct only, no run."""
     from fractions import Fraction as F
     acc = core.Acc()
     S, W = mods()
-    for nb in range(1, 11):
-        for lo10 in range(0, 20):
-            for hi10 in range(lo10 + 1, 21):
-                lo, hi = F(lo10, 20), F(hi10, 20)
+    grid = [(nb, F(lo10, 20), F(hi10, 20)) for nb in range(1, 11) for lo10 in range(0, 20) for hi10 in range(lo10 + 1, 21)]
+    # every partition of [0,1] into 11..256 equal bins: the whole range, its first bin, its last bin and a middle stretch
+    for n in range(11, 257):
+        grid += [(n, F(0), F(1)), (1, F(0), F(1, n)), (1, F(n - 1, n), F(1)), (max(1, n // 3), F(n // 3, n), F(n // 3 + max(1, n // 3), n))]
+    part = _[1] if _ is not None and len(_) > 1 else None
+    if part is not None:
+        grid = grid[part::8]
+    if only is not None:
+        grid = [g for g in grid if (g[0], float(g[1]), float(g[2])) == only]
+    for nb, lo, hi in grid:
+        if True:
+            if True:
                 width = (hi - lo) / nb
                 if (1 / width).denominator != 1:
                     continue
@@ -455,8 +465,8 @@ def replay(case):
         a2 = sequence_shard(("sequence", list(reversed(same[:3])), case["seed"]))
         return a.violations + a2.violations
     if case.get("kind") == "geometry":
-        a = geometry_shard(None)
-        return [v for v in a.violations if v["case"] == case]
+        a = geometry_shard(None, only=(case["nbins"], case["binmin"], case["binmax"]))
+        return a.violations
     runner = Run(case["cfg"])
     t = C.Tape(case["tape"], case["seed"], case["horizon"], None, case["stream"])
     C.ScriptedRandom.tape = t
@@ -491,7 +501,7 @@ def run(tier, seed, t0):
             for i in range(0, len(pre), k):
                 shards.append((cfg, bound, base_seed, stream, 400, pre[i:i + k]))
     shards.sort(key=lambda s: -s[1])
-    shards.append(("geometry", 0))
+    shards += [("geometry", k) for k in range(8)]
     same = [dict(name="%s/2bins[0,1]/p3/1upd/in-sequence" % q, seq=q, nbins=2, binmin=0, binmax=1, flatchk=3, flatcrit=0.3, conv=math.exp(0.6))
             for q in ("KKEEGG", "RRDDAS", "KRDEGS", "KKEEGG")]
     shards.append(("sequence", same, base_seed))
@@ -507,6 +517,10 @@ def run(tier, seed, t0):
     for st_ in range(3 if tier == "quick" else 8):
         shards.append((slow, 0, base_seed, 90 + st_, 1500, None))
         shards.append((slow2, 0, base_seed, 95 + st_, 1500, None))
+    # thresholds at or above the initial f = e: the run has converged before it starts and must take no step
+    for ci, cv in enumerate((math.e, float(np.exp(1)), 3.0, 10.0, math.nextafter(math.e, 3.0))):
+        zcfg = dict(name="KKEEGG/2bins[0,1]/p3/conv=%r/zero-steps" % cv, seq="KKEEGG", nbins=2, binmin=0, binmax=1, flatchk=3, flatcrit=0.3, conv=cv)
+        shards.append((zcfg, 0, base_seed, 160 + ci, 400, None))
     # bin walks: the same composition under every bin count 1..12 (edges at i/n), long base-tape runs; every proposal's bin is
     # compared with the nearest mid-point of its true kappa - the closer a kappa lies to an edge, the more bin counts expose it
     for comp in (("KKKEEGGG",) if tier == "quick" else ("KKKEEGGG", "KKEEGGG", "KKKEEEGG", "KKKKEEGGG")):
@@ -532,7 +546,7 @@ def run(tier, seed, t0):
         PROP, tier, seed, acc, t0,
         rule="state = one complete Wang-Landau execution = (configuration, tape of answers to every random draw). %d configurations "
              "(6-8 residue sequences, one of them with frozen residues; 1/2/4 bins over [0,1], [0,.5], [.5,1]; flat-check period 1-8; flatness .3/.5/.9; one to three "
-             "f-updates; one with f == threshold exactly) x base tapes derived from VERIF_SEED x ALL tapes within d deviations of the "
+             "f-updates; one with f == threshold exactly, five with the threshold at or above the initial f = e: zero steps) x base tapes derived from VERIF_SEED x ALL tapes within d deviations of the "
              "base tape (%s), horizon 400 choice points, retry bound inside a move. Menus: every value of every _randbelow (cap 12), "
              "one float inside each of the four move-selection intervals, both sides of the 0.5 coin, and for the acceptance draw "
              "{0, p(1-1e-9), p(1+1e-9), 1-1e-12} with p computed by the reference model. The reference WL machine consumes the hook's "
@@ -541,7 +555,7 @@ def run(tier, seed, t0):
              "bin, flat-check schedule, flatness test, f <- sqrt f, H reset, stop <=> f <= threshold; completed runs: returned array, "
              "DOS/DOS_local/histogram_bins/glog/hlog/seqlog files. First 4 executions per shard and every violating one are replayed "
              "and their observation logs compared. Bin geometry alone (centres, range bins, range test) is additionally checked by "
-             "construction for every (nbins<=10, binmin, binmax on a 0.05 grid) whose width divides [0,1]. Three (thorough: eight) long base-tape runs (1 bin, period 10, five f-updates, g > 10) exercise the log writers at values "
+             "construction for every (nbins<=10, binmin, binmax on a 0.05 grid) whose width divides [0,1], and for every equal partition of [0,1] into 11..256 bins (whole range, first bin, last bin, a middle third). Three (thorough: eight) long base-tape runs (1 bin, period 10, five f-updates, g > 10) exercise the log writers at values "
              "that need more than four significant digits. Bin walks: KKKEEGGG (thorough: 4 compositions) under every bin count 1..12, two (four) base tapes of 3000 choice points each; a 22-residue irregular input with 6 bins of width 0.1, 4 (12) base tapes of 2500 choice points. One configuration runs the same "
              "machine twice (the second run judged by a fresh reference machine); four same-composition sequences (KKEEGG, RRDDAS, KRDEGS, "
              "KKEEGG) are run one after another in a freshly imported package, in both orders. non-trivial = completed runs" % (
